@@ -25,7 +25,7 @@ ViewUniform ==
 \* degree: the NM shares lie on a polynomial of degree <= NT (any NT+1 shares determine all others)
 DegreeT == LET sh == Split(case.s, case.c, NM) IN
            \A j \in 1..NM : Lagrange({<<OfInt(i), sh[i]>> : i \in 1..(NT + 1)}, OfInt(j)) = sh[j]
-ASSUME FieldAxioms
+ASSUME FieldAxiomsOn(Elems)
 \* negative control: subsets of only t shares do NOT determine the secret (must be violated for t >= 1)
 TooFewRecombine ==
   LET sh == Split(case.s, case.c, NM) IN
